@@ -93,6 +93,9 @@ type opDef struct {
 	// (oracle 3) is asserted, with relative tolerance relTol3.
 	noRef   bool
 	relTol3 float64
+	// basicState is the receiver state of the all-basic run of oracle 3 (default
+	// stZero; stSized for operations that need a sized receiver).
+	basicState int
 	// sanity is an extra check of the result of run 1.
 	sanity func(x *ctx, got []float64) *vk.Failure
 }
@@ -509,7 +512,10 @@ func init() {
 	addOp(&opDef{name: "SymOuterK", recv: rSym, nvars: 2, params: []param{mp(0, 1)}, res: resVars(0, 0), strict: true, big: true,
 		run: func(x *ctx) { x.recv.s.SymOuterK(x.alpha, x.args[0]) },
 		ref: func(x *ctx) (result, bool) { return okRef(rankKRef(nil, x.alpha, x.lg[0])) }})
-	addOp(&opDef{name: "RankTwo", recv: rSym, nvars: 1, params: []param{sp(0), vp(0), vp(0)}, res: resVars(0, 0), strict: true, enumArity: 2,
+	// RankTwo takes its size from the receiver (n := s.mat.N), so an empty
+	// receiver panics (reported finding, key RankTwo/panic for the zero and reset
+	// states); the all-basic run therefore uses a sized receiver.
+	addOp(&opDef{name: "RankTwo", recv: rSym, nvars: 1, params: []param{sp(0), vp(0), vp(0)}, res: resVars(0, 0), strict: true, enumArity: 2, basicState: stSized,
 		run: func(x *ctx) { x.recv.s.RankTwo(x.S(0), x.alpha, x.V(1), x.V(2)) },
 		ref: func(x *ctx) (result, bool) {
 			a, xv, yv := x.lg[0], x.lg[1].v, x.lg[2].v
@@ -551,6 +557,9 @@ func init() {
 						p, q = q, p
 					}
 					res.want[i*n+j] = a.at(p, q)
+					// a user Symmetric whose At is symmetric only to rounding
+					// (EigenSym) may be read in either triangle
+					res.tol[i*n+j] = math.Abs(a.at(p, q) - a.at(q, p))
 				}
 			}
 			symmetrize(&res)
@@ -652,7 +661,7 @@ func init() {
 	// ================= MulVecTo / SolveTo / SolveVecTo on the band types =================
 	// The matrix is the method receiver (a fixed concrete kind); dst plays the
 	// receiver role of the property; the other operand varies over all kinds.
-	mulVecTo := func(name string, fixed func(int) string, square bool, call func(a mat.Matrix, dst *mat.VecDense, trans bool, xv mat.Vector)) {
+	mulVecTo := func(name string, fixed func(int) string, nfixed int, square bool, call func(a mat.Matrix, dst *mat.VecDense, trans bool, xv mat.Vector)) {
 		for _, trans := range []bool{false, true} {
 			trans := trans
 			nm := name + ".MulVecTo"
@@ -673,7 +682,7 @@ func init() {
 			if square {
 				nv = 1
 			}
-			addOp(&opDef{name: nm, recv: rVec, nvars: nv, params: []param{a, vp(xi)}, res: resVars(ri, -1), strict: true, big: true, nP: 2, enumP: true,
+			addOp(&opDef{name: nm, recv: rVec, nvars: nv, params: []param{a, vp(xi)}, res: resVars(ri, -1), strict: true, big: true, nP: nfixed, enumP: true,
 				run: func(x *ctx) { call(x.args[0], x.recv.v, trans, x.V(1)) },
 				ref: func(x *ctx) (result, bool) {
 					al := x.lg[0]
@@ -684,14 +693,14 @@ func init() {
 				}})
 		}
 	}
-	mulVecTo("BandDense", func(p int) string { return [...]string{"band", "band.strided"}[p%2] }, false,
+	mulVecTo("BandDense", func(p int) string { return [...]string{"band", "band.strided"}[p%2] }, 2, false,
 		func(a mat.Matrix, dst *mat.VecDense, trans bool, xv mat.Vector) { a.(*mat.BandDense).MulVecTo(dst, trans, xv) })
-	mulVecTo("SymBandDense", fixedKind("symband"), true,
+	mulVecTo("SymBandDense", fixedKind("symband"), 1, true,
 		func(a mat.Matrix, dst *mat.VecDense, trans bool, xv mat.Vector) { a.(*mat.SymBandDense).MulVecTo(dst, trans, xv) })
-	mulVecTo("Tridiag", fixedKind("tridiag"), true,
+	mulVecTo("Tridiag", fixedKind("tridiag"), 1, true,
 		func(a mat.Matrix, dst *mat.VecDense, trans bool, xv mat.Vector) { a.(*mat.Tridiag).MulVecTo(dst, trans, xv) })
 
-	solveTo := func(name string, fixed func(int) string, call func(a mat.Matrix, dst *mat.Dense, trans bool, b mat.Matrix) error) {
+	solveTo := func(name string, fixed func(int) string, nfixed int, call func(a mat.Matrix, dst *mat.Dense, trans bool, b mat.Matrix) error) {
 		for _, trans := range []bool{false, true} {
 			trans := trans
 			nm := name + ".SolveTo"
@@ -700,7 +709,7 @@ func init() {
 			}
 			a := mp(0, 0).well()
 			a.fixed = fixed
-			addOp(&opDef{name: nm, recv: rDense, nvars: 2, params: []param{a, mp(0, 1)}, res: resVars(0, 1), strict: true, big: true, nP: 2, enumP: true,
+			addOp(&opDef{name: nm, recv: rDense, nvars: 2, params: []param{a, mp(0, 1)}, res: resVars(0, 1), strict: true, big: true, nP: nfixed, enumP: true,
 				run: func(x *ctx) { x.err = call(x.args[0], x.recv.d, trans, x.args[1]) },
 				ref: func(x *ctx) (result, bool) {
 					al := x.lg[0]
@@ -713,16 +722,16 @@ func init() {
 	}
 	triKinds := func(p int) string { return [...]string{"triU", "triL.slice"}[p%2] }
 	triBandKinds := func(p int) string { return [...]string{"tribandU", "tribandL"}[p%2] }
-	solveTo("TriDense", triKinds, func(a mat.Matrix, dst *mat.Dense, trans bool, b mat.Matrix) error {
+	solveTo("TriDense", triKinds, 2, func(a mat.Matrix, dst *mat.Dense, trans bool, b mat.Matrix) error {
 		return a.(*mat.TriDense).SolveTo(dst, trans, b)
 	})
-	solveTo("TriBandDense", triBandKinds, func(a mat.Matrix, dst *mat.Dense, trans bool, b mat.Matrix) error {
+	solveTo("TriBandDense", triBandKinds, 2, func(a mat.Matrix, dst *mat.Dense, trans bool, b mat.Matrix) error {
 		return a.(*mat.TriBandDense).SolveTo(dst, trans, b)
 	})
-	solveTo("Tridiag", fixedKind("tridiag"), func(a mat.Matrix, dst *mat.Dense, trans bool, b mat.Matrix) error {
+	solveTo("Tridiag", fixedKind("tridiag"), 1, func(a mat.Matrix, dst *mat.Dense, trans bool, b mat.Matrix) error {
 		return a.(*mat.Tridiag).SolveTo(dst, trans, b)
 	})
-	solveVecTo := func(name string, fixed func(int) string, call func(a mat.Matrix, dst *mat.VecDense, trans bool, b mat.Vector) error) {
+	solveVecTo := func(name string, fixed func(int) string, nfixed int, call func(a mat.Matrix, dst *mat.VecDense, trans bool, b mat.Vector) error) {
 		for _, trans := range []bool{false, true} {
 			trans := trans
 			nm := name + ".SolveVecTo"
@@ -731,7 +740,7 @@ func init() {
 			}
 			a := mp(0, 0).well()
 			a.fixed = fixed
-			addOp(&opDef{name: nm, recv: rVec, nvars: 1, params: []param{a, vpc(0)}, res: resVars(0, -1), strict: true, big: true, nP: 2, enumP: true,
+			addOp(&opDef{name: nm, recv: rVec, nvars: 1, params: []param{a, vpc(0)}, res: resVars(0, -1), strict: true, big: true, nP: nfixed, enumP: true,
 				run: func(x *ctx) { x.err = call(x.args[0], x.recv.v, trans, x.V(1)) },
 				ref: func(x *ctx) (result, bool) {
 					al := x.lg[0]
@@ -742,10 +751,10 @@ func init() {
 				}})
 		}
 	}
-	solveVecTo("TriBandDense", triBandKinds, func(a mat.Matrix, dst *mat.VecDense, trans bool, b mat.Vector) error {
+	solveVecTo("TriBandDense", triBandKinds, 2, func(a mat.Matrix, dst *mat.VecDense, trans bool, b mat.Vector) error {
 		return a.(*mat.TriBandDense).SolveVecTo(dst, trans, b)
 	})
-	solveVecTo("Tridiag", fixedKind("tridiag"), func(a mat.Matrix, dst *mat.VecDense, trans bool, b mat.Vector) error {
+	solveVecTo("Tridiag", fixedKind("tridiag"), 1, func(a mat.Matrix, dst *mat.VecDense, trans bool, b mat.Vector) error {
 		return a.(*mat.Tridiag).SolveVecTo(dst, trans, b)
 	})
 
@@ -987,13 +996,19 @@ func init() {
 			return res, true
 		}})
 	// Formatted: the printed text depends on the values only.
-	fmtVerbs := []string{"%v", "%.3g", "%#v", "%6.2f"}
-	addOp(&opDef{name: "Formatted", recv: rNone, nvars: 2, params: []param{mp(0, 1)}, nP: 8, noRef: true,
+	fmtVerbs := []string{"%v", "%.3g", "% .2f", "%6.2e"}
+	addOp(&opDef{name: "Formatted", recv: rNone, nvars: 2, params: []param{mp(0, 1)}, nP: 20, noRef: true,
 		run: func(x *ctx) {
 			var opts []mat.FormatOption
 			switch x.p / len(fmtVerbs) {
 			case 1:
 				opts = append(opts, mat.Squeeze(), mat.Prefix("  "))
+			case 2:
+				opts = append(opts, mat.FormatMATLAB())
+			case 3:
+				opts = append(opts, mat.FormatPython())
+			case 4:
+				opts = append(opts, mat.Excerpt(2))
 			}
 			s := fmt.Sprintf(fmtVerbs[x.p%len(fmtVerbs)], mat.Formatted(x.args[0], opts...))
 			x.out = make([]float64, len(s))
